@@ -383,6 +383,7 @@ func runC04(c *Case) {
 			return
 		}
 		probeReq := uint64(100)
+		stalledOne := false // a hostile session has stopped reading
 		probe := func(full bool, after string) bool {
 			probeReq++
 			tok := fmt.Sprintf("probe-%d", probeReq)
@@ -453,6 +454,16 @@ func runC04(c *Case) {
 					okCnt = true
 				}
 			}
+			if !okCnt && stalledOne {
+				// a session that stopped reading may have called a meta procedure: the realm's meta session then
+				// retries that RESULT for up to a minute (the documented hold, see C07) before it serves the next call
+				w.Advance(65 * time.Second)
+				for _, o := range p0.Take() {
+					if m, ok := o.Msg.(*wamp.Result); ok && uint64(m.Request) == probeReq {
+						okCnt = true
+					}
+				}
+			}
 			if !okCnt {
 				return fail("wamp.session.count unanswered")
 			}
@@ -510,6 +521,11 @@ func runC04(c *Case) {
 		}
 		for step := 0; step < 25; step++ {
 			h := pick(r, hs)
+			if h.state == "stalled" {
+				// a session that has stopped reading sends nothing more after its recipe (further meta calls by it
+				// would each add a minute of the meta session's documented result-retry hold, which C07 decides)
+				continue
+			}
 			if h.state == "gone" && chance(r, 70) {
 				nh := newHostile()
 				hs = append(hs, nh)
@@ -655,6 +671,39 @@ func runC04(c *Case) {
 				if desc == "" {
 					continue
 				}
+			case x < 25 && !stalledOne: // a hostile session stops reading, lets its queue fill up, and keeps asking
+				var a *hostile
+				for _, cand := range attached() {
+					if cand.p.Kind == sim.Local {
+						a = cand
+					}
+				}
+				if a == nil {
+					continue
+				}
+				stalledOne = true
+				a.p.Send(&wamp.Subscribe{Request: a.nextReq(), Options: wamp.Dict{}, Topic: "flood.t"})
+				w.Wait()
+				a.absorb()
+				a.p.Stall()
+				for i := 0; i < 80; i++ {
+					p0.Send(&wamp.Publish{Request: wamp.ID(5000 + i), Options: wamp.Dict{}, Topic: "flood.t", Arguments: wamp.List{i}})
+				}
+				w.Wait()
+				// every one of these asks for a reply that cannot be queued
+				a.p.Send(&wamp.Subscribe{Request: a.nextReq(), Options: wamp.Dict{}, Topic: "flood.t"})
+				a.p.Send(&wamp.Subscribe{Request: a.nextReq(), Options: wamp.Dict{"match": "prefix"}, Topic: "flood"})
+				a.p.Send(&wamp.Register{Request: a.nextReq(), Options: wamp.Dict{}, Procedure: "flood.proc"})
+				a.p.Send(&wamp.Register{Request: a.nextReq(), Options: wamp.Dict{}, Procedure: "flood.proc"})
+				a.p.Send(&wamp.Publish{Request: a.nextReq(), Options: wamp.Dict{"acknowledge": true, "exclude_me": false}, Topic: "flood.t", Arguments: wamp.List{"self"}})
+				// (no meta procedure call here: its RESULT would be retried for up to a minute by the realm's meta
+				// session, the documented hold that C07 accounts for, during which joins wait on a mutex - a wait the
+				// bubble cannot see through)
+				a.p.Send(&wamp.Call{Request: a.nextReq(), Options: wamp.Dict{}, Procedure: "flood.proc"})
+				a.p.Send(&wamp.Unsubscribe{Request: a.nextReq(), Subscription: pickID(r, a.subs)})
+				a.p.Send(&wamp.Unregister{Request: a.nextReq(), Registration: pickID(r, a.regs)})
+				a.state = "stalled"
+				desc = "recipe[attached] session stops reading with a full queue, then repeated SUBSCRIBE/REGISTER/PUBLISH/CALL/UNSUBSCRIBE/UNREGISTER"
 			case x < 27: // abrupt disconnect
 				h.p.Drop()
 				desc = fmt.Sprintf("H%d[%s] drop", h.p.Idx, h.state)
